@@ -70,3 +70,10 @@ Proof.
   eapply exact_pulls_iter; eauto.
 Qed.
 Print Assumptions C11_every_pull_exact_iter.
+
+(** ten elements, Exact(3), three workers under an uneven schedule: the pulls *)
+Example C11_example_pulls :
+  let r := mkRunner (Some 10%N) 3%N (RExact 3%N) in
+  let s := mrun r 10 (@nostop) ([0; 0; 0] ++ [3; 3; 3; 3; 3; 1; 2] ++ round_robin 3 12) in
+  all_doneb s = true /\ map pulls (ws s) = [[(0, 3); (9, 1)]; [(3, 3)]; [(6, 3)]].
+Proof. vm_compute. split; reflexivity. Qed.
